@@ -52,6 +52,14 @@ type Engine struct {
 	nonNilElems map[string]bool // type keys of pointer element types that are never nil inside slices
 	nonNilFields map[string]string // family key H|T|f -> "checked" | "assumed"
 	nonNilBoxed  map[string]bool
+	guarded      map[string]guardInfo // family key H|T|f -> mutex field
+}
+
+type guardInfo struct {
+	structT  types.Type
+	mutexIdx int
+	props    []string
+	label    string
 }
 
 func loadEngine(repoDir string) (*Engine, error) {
@@ -139,6 +147,36 @@ func loadEngine(repoDir string) (*Engine, error) {
 		e.allFuncs = append(e.allFuncs, fn)
 	}
 	sort.Slice(e.allFuncs, func(i, j int) bool { return e.allFuncs[i].String() < e.allFuncs[j].String() })
+	e.guarded = map[string]guardInfo{}
+	for _, g := range e.contracts.Guarded {
+		w := strings.Fields(g.Text) // T.f by m
+		p := e.pkgByPath[g.Pkg]
+		if p == nil || len(w) != 3 || w[1] != "by" || !strings.Contains(w[0], ".") {
+			e.contracts.Errors = append(e.contracts.Errors, "guarded: want T.f by m: "+g.Text)
+			continue
+		}
+		i := strings.Index(w[0], ".")
+		tn, _ := p.Types.Scope().Lookup(w[0][:i]).(*types.TypeName)
+		if tn == nil {
+			e.contracts.Errors = append(e.contracts.Errors, "guarded: unknown type "+w[0][:i])
+			continue
+		}
+		st, ok := tn.Type().Underlying().(*types.Struct)
+		if !ok {
+			continue
+		}
+		mi := -1
+		for k := 0; k < st.NumFields(); k++ {
+			if st.Field(k).Name() == w[2] {
+				mi = k
+			}
+		}
+		if mi < 0 {
+			e.contracts.Errors = append(e.contracts.Errors, "guarded: unknown mutex field "+w[2])
+			continue
+		}
+		e.guarded[fmt.Sprintf("H|%s|%s", typeKey(tn.Type()), w[0][i+1:])] = guardInfo{structT: tn.Type(), mutexIdx: mi, props: g.Props, label: g.Text}
+	}
 	e.nonNilBoxed = map[string]bool{}
 	for _, nb := range e.contracts.NonNilBoxed {
 		if p := e.pkgByPath[nb[0]]; p != nil {
